@@ -138,8 +138,21 @@ namespace hv
     // stopped after `sec` seconds however loaded the machine is, while an operation that merely waits for a
     // time slice on a busy host is not mistaken for non-termination.  A generous wall-clock limit (10x)
     // still catches an operation that blocks without using CPU.
+    // HV_WATCHDOG_SCALE (set by bin/check when it re-runs a case that hit the limit) multiplies every limit: an
+    // operation that only looked endless because the host was overloaded (CPU time includes kernel time spent on
+    // page faults of the sanitizer shadow under memory pressure) completes on the retry, a real endless loop does not.
+    inline unsigned watchdog_scale()
+    {
+        static unsigned sc = [] {
+            const char *e = getenv("HV_WATCHDOG_SCALE");
+            int v = e ? atoi(e) : 1;
+            return v < 1 ? 1u : (unsigned)v;
+        }();
+        return sc;
+    }
     inline void arm(unsigned sec = 3)
     {
+        sec *= watchdog_scale();
         signal(SIGPROF, on_alarm);
         signal(SIGALRM, on_alarm);
         struct itimerval it;
